@@ -3,6 +3,6 @@
 (* space enumerated by the specification (every case once).                  *)
 EXTENDS TraceCrypto
 CaseStarts == {k \in Starts : Trace[k].fn \notin ListFns}
-ASSUME Cardinality({CaseOf(Trace[k]) : k \in CaseStarts}) = NumCases
-ASSUME Cardinality(CaseStarts) = NumCases
+ASSUME Cardinality({CaseOf(Trace[k]) : k \in CaseStarts}) = NumCasesOf(Groups)
+ASSUME Cardinality(CaseStarts) = NumCasesOf(Groups)
 =============================================================================
